@@ -103,6 +103,8 @@ def work(task):
         smin, _ = cl.smin_smax(ent)
         for (u, v) in cl.unit_pairs(ent):
             su, sv = ent["units"][u]["scale"], ent["units"][v]["scale"]
+            if not cl.pair_ok(b, su, sv):
+                continue
             for _ in range(task["n"]):
                 x, sx = amount(rng, b, ent, u)
                 y, sy = amount(rng, b, ent, v)
